@@ -5,20 +5,10 @@
 (* maximum, product update, small eigenproblem, convergence test, correction*)
 (* and extension.  Parameters are adjusted exactly as initialize() does.    *)
 (***************************************************************************)
-EXTENDS Naturals, Integers, FiniteSets
+EXTENDS DavidsonOps
 CONSTANTS NMax, MaxIt
 VARIABLES n, nev, init, maxs, corr, size, niter, info, pc
 vars == <<n, nev, init, maxs, corr, size, niter, info, pc>>
-Min(a, b) == IF a < b THEN a ELSE b
-
-\* constructor (nev, nvec_init, nvec_max) followed by initialize(): values actually used
-Adj(nn, k, i0, m0) ==
-    LET m1 == IF m0 < nn THEN m0 ELSE 10 * k
-        i1 == IF i0 < nn THEN i0 ELSE 2 * k
-        m2 == IF nn < m1 THEN nn ELSE m1
-        small == nn < i1 + k
-    IN [maxs |-> m2, init |-> IF small THEN nn \div 3 ELSE i1, corr |-> IF small THEN nn \div 3 ELSE k]
-
 Init ==
     /\ n \in 3 .. NMax /\ nev \in 1 .. NMax /\ nev <= n - 1
     \* domain of C15: initial + correction <= n; at least nev initial vectors; the maximal space leaves room for one correction
@@ -27,24 +17,25 @@ Init ==
           /\ LET a == Adj(n, nev, i0, m0) IN init = a.init /\ maxs = a.maxs /\ corr = a.corr
     /\ size = 0 /\ niter = 0 /\ info = "NotComputed" /\ pc = "setup"
 
+Par == [n |-> n, nev |-> nev, init |-> init, maxs |-> maxs, corr |-> corr]
 Setup == pc = "setup" /\ size' = init /\ pc' = "top" /\ UNCHANGED <<n, nev, init, maxs, corr, niter, info>>
 Top ==
     /\ pc = "top" /\ niter < MaxIt
-    /\ size' = IF size > maxs THEN init ELSE size          \* restart keeps `init` Ritz vectors
+    /\ size' = D_TopSize(size, Par)                        \* restart keeps `init` Ritz vectors
     /\ pc' = "small" /\ UNCHANGED <<n, nev, init, maxs, corr, niter, info>>
 Exhausted == pc = "top" /\ niter >= MaxIt /\ pc' = "done" /\ UNCHANGED <<n, nev, init, maxs, corr, size, niter, info>>
 Small ==
     /\ pc = "small"
     /\ \/ pc' = "done" /\ info' = "Successful" /\ UNCHANGED <<size, niter>>
        \/ niter = MaxIt - 1 /\ pc' = "done" /\ info' = "NotConverging" /\ UNCHANGED <<size, niter>>
-       \/ niter < MaxIt - 1 /\ pc' = "top" /\ size' = size + corr /\ niter' = niter + 1 /\ UNCHANGED info
+       \/ niter < MaxIt - 1 /\ pc' = "top" /\ size' = D_Extend(size, Par) /\ niter' = niter + 1 /\ UNCHANGED info
     /\ UNCHANGED <<n, nev, init, maxs, corr>>
 Next == Setup \/ Top \/ Exhausted \/ Small
 Spec == Init /\ [][Next]_vars
 
 \* the small eigenproblem needs at least nev Ritz pairs and a basis that fits into R^n
-SpaceHoldsNev == pc = "small" => size >= nev
-SpaceFits == pc = "small" => size <= n
+SpaceHoldsNev == pc = "small" => P_SpaceHoldsNev(size, Par)
+SpaceFits == pc = "small" => P_SpaceFits(size, Par)
 IterBounded == niter <= MaxIt
 StatusDocumented == pc = "done" /\ MaxIt > 0 => info \in {"Successful", "NotConverging"}
 =============================================================================
